@@ -2,6 +2,8 @@ package main
 
 import (
 	"go/ast"
+	"strconv"
+	"go/constant"
 	"go/token"
 	"go/types"
 	"strings"
@@ -232,9 +234,33 @@ func runC17(c *RuleCtx) {
 		g := p.Graph(f)
 		present := lookupIn("mid in msgs", isFieldOf("MessageCache.msgs"))
 		for _, e := range g.AtomEdges(present, true) {
+			isTx := func(v *V) bool {
+				// the per-peer transmission map of the message: mc.peertx[mid] (or the local that holds / replaces it)
+				return v != nil && (v.Has(func(x *V) bool { return x.IsField("MessageCache.peertx") }) || v.IsCall("builtin.make") || v.Kind == "var")
+			}
 			ok, _ := g.MustPass(EdgeTarget(e), PassOpts{}, func(n ast.Node) bool {
-				s, ok := n.(*ast.IncDecStmt)
-				return ok && s.Tok == token.INC
+				switch s := n.(type) {
+				case *ast.IncDecStmt:
+					ix, isIx := unparen(s.X).(*ast.IndexExpr)
+					return s.Tok == token.INC && isIx && isTx(p.R(f).Val(ix.X))
+				case *ast.AssignStmt:
+					if len(s.Lhs) != 1 || len(s.Rhs) != 1 {
+						return false
+					}
+					ix, isIx := unparen(s.Lhs[0]).(*ast.IndexExpr)
+					if !isIx || !isTx(p.R(f).Val(ix.X)) {
+						return false
+					}
+					one := func(v *V) bool { return v != nil && v.IsConst("1") }
+					if s.Tok == token.ADD_ASSIGN {
+						return one(p.R(f).Val(s.Rhs[0]))
+					}
+					if s.Tok == token.ASSIGN {
+						rv, old := p.R(f).Val(s.Rhs[0]), p.R(f).Val(s.Lhs[0])
+						return rv.Kind == "op" && rv.Name == "+" && ((rv.Args[0].Equal(old) && one(rv.Args[1])) || (rv.Args[1].Equal(old) && one(rv.Args[0])))
+					}
+				}
+				return false
 			})
 			c.Check(ok, "B7", f.Name, "transmission counter incremented on every hit", condNodeOf(e), "tx[p]++ on every path", "a cache hit does not count the transmission")
 		}
@@ -561,18 +587,82 @@ func runC17(c *RuleCtx) {
 			okr, _ := g.MustPass(g.Entry(), PassOpts{}, func(n ast.Node) bool { return shiftLoop.Init != nil && n == ast.Node(shiftLoop.Init) })
 			c.Check(okr, "B14", f.Name, "slots shifted on every Shift", shiftLoop, "on every path", "Shift can return without shifting")
 			// descending iteration from len-2 down to 0 (so no slot is overwritten before it is moved)
+			// index arithmetic, whatever the loop variable's offset: the loop is descending, its store is
+			// history[i+a] = history[i+b] with a-b == 1, it starts at i0 = len(history)+s with i0+a == len-1 (the top slot is
+			// written first) and runs down to i == L with L+b == 0 (slot 0 is the last one moved)
 			desc := false
+			var loopVar types.Object
 			if id, ok := shiftLoop.Post.(*ast.IncDecStmt); ok && id.Tok == token.DEC {
 				desc = true
+				if iv, ok := unparen(id.X).(*ast.Ident); ok {
+					loopVar = f.Info().ObjectOf(iv)
+				}
+			}
+			// linear(e) = offset c such that e == i + c
+			linear := func(e ast.Expr) (int, bool) {
+				e = unparen(e)
+				if id, ok := e.(*ast.Ident); ok && loopVar != nil && f.Info().ObjectOf(id) == loopVar {
+					return 0, true
+				}
+				if be, ok := e.(*ast.BinaryExpr); ok && (be.Op == token.ADD || be.Op == token.SUB) {
+					if id, ok := unparen(be.X).(*ast.Ident); ok && loopVar != nil && f.Info().ObjectOf(id) == loopVar {
+						if tv, ok := f.Info().Types[be.Y]; ok && tv.Value != nil {
+							if n, exact := constant.Int64Val(tv.Value); exact {
+								if be.Op == token.SUB {
+									n = -n
+								}
+								return int(n), true
+							}
+						}
+					}
+				}
+				return 0, false
+			}
+			a, b, okAB := 0, 0, false
+			for _, st := range shiftLoop.Body.List {
+				if as, ok := st.(*ast.AssignStmt); ok && isShiftStore(st) {
+					li, _ := unparen(as.Lhs[0]).(*ast.IndexExpr)
+					ri, _ := unparen(as.Rhs[0]).(*ast.IndexExpr)
+					if li != nil && ri != nil {
+						a1, ok1 := linear(li.Index)
+						b1, ok2 := linear(ri.Index)
+						if ok1 && ok2 {
+							a, b, okAB = a1, b1, true
+						}
+					}
+				}
 			}
 			initOK := false
+			s := 0
 			if as, ok := shiftLoop.Init.(*ast.AssignStmt); ok && len(as.Rhs) == 1 {
 				v := p.R(f).Val(as.Rhs[0])
-				initOK = v.Kind == "op" && v.Name == "-" && v.Args[0].Kind == "len" && v.Args[1].Name == "2"
+				if v.Kind == "op" && v.Name == "-" && v.Args[0].Kind == "len" && v.Args[0].Args[0].IsField("MessageCache.history") {
+					if n, err := strconv.Atoi(v.Args[1].Name); err == nil {
+						s, initOK = -n, true
+					}
+				}
 			}
 			condOK := false
-			if be, ok := shiftLoop.Cond.(*ast.BinaryExpr); ok && be.Op == token.GEQ && p.R(f).Val(be.Y).Name == "0" {
-				condOK = true
+			L := 0
+			if be, ok := shiftLoop.Cond.(*ast.BinaryExpr); ok {
+				if tv, ok := f.Info().Types[be.Y]; ok && tv.Value != nil {
+					if n, exact := constant.Int64Val(tv.Value); exact {
+						if _, isI := linear(be.X); isI {
+							switch be.Op {
+							case token.GEQ:
+								L, condOK = int(n), true
+							case token.GTR:
+								L, condOK = int(n)+1, true
+							}
+						}
+					}
+				}
+			}
+			if desc && initOK && condOK && okAB {
+				initOK = a-b == 1 && s+a == -1
+				condOK = L+b == 0
+			} else {
+				initOK, condOK = false, false
 			}
 			c.Check(desc && initOK && condOK, "B14", f.Name, "shift runs from len-2 down to 0", shiftLoop, "descending over all slots", "the shift loop does not run from len(history)-2 down to 0")
 			// expiry happens before the shift
